@@ -40,43 +40,45 @@ theorem step1_refuse_frame (retry : Cl → Option (Cl × Res)) (nx : Nat) (c : C
   unfold step1
   split
   · intro _; rfl
-  · simp only
-    split
-    · intro _; simp
-    · split
-      · -- commit
-        split
-        · unfold wrongEpochCommit
-          simp only [withSecret_isBetter, hnb, Bool.false_eq_true, if_false]
-          exact frame_notBetter c e hs
-        · split
+  · split
+    · intro _; rfl
+    · simp only
+      split
+      · intro _; simp
+      · split
+        · -- commit
+          split
+          · unfold wrongEpochCommit
+            simp only [withSecret_isBetter, hnb, Bool.false_eq_true, if_false]
+            exact frame_notBetter c e hs
           · split
-            · intro h; simp [isRefusal] at h
-            · exact frame_ownMessage c e hs
-          · split
-            · exact frame_fail c e
-            · unfold processCommit
-              split
-              · intro _; simp [recordFailure, setRec, proj, withSecret, ensureSecret_fields, ensureSecret_data]
+            · split
               · intro h; simp [isRefusal] at h
-      · -- leave
-        split
-        · exact frame_fail c e
-        · split
-          · exact frame_ownMessage c e hs
-          · split
-            · exact frame_fail c e
-            · split <;> (intro h; simp [isRefusal] at h)
-      · -- app
-        split
-        · exact frame_fail c e
-        · split
+              · exact frame_ownMessage c e hs
+            · split
+              · exact frame_fail c e
+              · unfold processCommit
+                split
+                · intro _; simp [recordFailure, setRec, proj, withSecret, ensureSecret_fields, ensureSecret_data]
+                · split <;> (intro h; simp [isRefusal] at h)
+        · -- leave
+          split
           · exact frame_fail c e
           · split
             · exact frame_ownMessage c e hs
             · split
               · exact frame_fail c e
-              · intro h; simp [isRefusal, storeApp] at h
+              · split <;> (intro h; simp [isRefusal] at h)
+        · -- app
+          split
+          · exact frame_fail c e
+          · split
+            · exact frame_fail c e
+            · split
+              · exact frame_ownMessage c e hs
+              · split
+                · exact frame_fail c e
+                · intro h; simp [isRefusal, storeApp] at h
 
 /-- **refuse_frame_partial**: for every client state, event and fuel, if no rollback is triggered, a
     refused event leaves the projection exactly as it was -/
